@@ -784,7 +784,7 @@ def correspondence(ctx):
         hists.append(play_fixed(ctx, k, case))
         k += 1
     ncorp = len(hists)
-    for _ in range(ctx.budget(420, 9000)):
+    for _ in range(ctx.budget(420, 5000)):
         hists.append(play_history(ctx, k, stats, ctx.rng.choice([3, 6, 10, 14])))
         k += 1
     lines = [l for h in hists for (l, _) in h]
@@ -1169,7 +1169,7 @@ def extra_fixed_checks(ctx):
         got = [tuple(r) for r in now[:].tolist()]
         if accepted or now.id != ident or got != [(1, "x"), (2, "y")] or now.type != "t":
             fails.append(Failure("create_data_frame with the name of an existing frame changed that frame",
-                                 ["create_data_frame('d', ...) twice"], {"accepted": accepted, "rows": got},
+                                 ["create_data_frame('d', ...) twice"], {"accepted": accepted, "rows": repr(got)},
                                  "DuplicateName, first frame unchanged", "nixio/block.py:create_data_frame"))
         before = len(b.data_frames)
         for kw in ({"col_dict": OrderedDict([("a", int), ("s", str)]), "data": [(1,)]},
@@ -1183,7 +1183,7 @@ def extra_fixed_checks(ctx):
                 pass
             if len(b.data_frames) != before:
                 fails.append(Failure("a refused create_data_frame left a frame behind", [repr(kw)],
-                                     [d.name for d in b.data_frames], "no new frame",
+                                     repr([d.name for d in b.data_frames]), "no new frame",
                                      "nixio/block.py:create_data_frame"))
                 before = len(b.data_frames)
     finally:
@@ -1212,9 +1212,9 @@ def oracle(ctx, broken, hints):
     e, fs = extra_fixed_checks(ctx)
     evals += e
     failures += fs
-    n = ctx.budget(60, 2500)
+    n = ctx.budget(60, 1200)
     if broken:
-        n = ctx.budget(600, 8000)
+        n = ctx.budget(600, 6000)
     for _ in range(n):
         if len(failures) >= 8:
             break
